@@ -65,6 +65,8 @@ pub fn fault_classes() -> Vec<(&'static str, E)> {
         ("null-plus-int", bin("+", E::Null, E::Int(1))),
         ("print-placeholder-too-many", print("x ~ é ~\\n", vec![E::Int(1)])),
         ("print-argument-too-many", print("ž ~\\n", vec![E::Int(1), E::Int(2)])),
+        ("print-placeholder-without-any-argument", print("x = ~\\n", vec![])),
+        ("print-two-placeholders-without-any-argument", print("a ~ b ~ c", vec![])),
         ("division-by-zero", bin("/", E::Int(1), E::Int(0))),
         ("remainder-by-zero", bin("%", E::Int(1), E::Int(0))),
         ("min-div-minus-one", bin("/", E::Int(i32::MIN), E::Int(-1))),
